@@ -656,6 +656,39 @@ theorem normalize_lengths_angles (fl : K → Int) (pad : K) (sqrt arccos : K →
     obtain ⟨d02, d12⟩ := hneg h
     simp only [cosAlpha, cosBeta, lenA, lenB, lenC, n0, n1, n2, d02, d12, neg_div, and_self]
 
+/-- **boxSet_scale_spec**: `box_set(…, scale=True)` holds the relative coordinates fixed (the same list with respect to
+    the new box as with respect to the old one, whenever the new cell — after the clean-up of the setter — is
+    non-singular); `box_set(…, scale=False)` holds the Cartesian positions fixed. Either way the box is the one asked
+    for (after the clean-up) and pbc is untouched. -/
+theorem boxSet_scale_spec (tiny : K) (s : Sys K) (v : M3 K) (o : V3 K) :
+    (M3.det (zeroSmall tiny v) ≠ 0 → (s.boxSet tiny true v o).spos = s.spos) ∧
+    (s.boxSet tiny false v o).pos = s.pos ∧
+    (∀ sc, (s.boxSet tiny sc v o).box = ⟨zeroSmall tiny v, o⟩ ∧ (s.boxSet tiny sc v o).pbc = s.pbc) := by
+  refine ⟨?_, rfl, ?_⟩
+  · intro hdet
+    simp only [Sys.boxSet, if_true, Sys.spos, List.map_map]
+    apply List.map_congr_left
+    intro p _
+    simp only [Function.comp]
+    exact cartToRel_relToCart (⟨zeroSmall tiny v, o⟩ : Box K) hdet _
+  · intro sc
+    cases sc <;> simp [Sys.boxSet, Sys.setBox]
+
+/-- **hist_boxSet_scale**: on the object with its cache, at any point of any history: reading the scaled positions
+    after `box_set(vects=v, origin=o, scale=True)` gives what reading them before it gave. -/
+theorem hist_boxSet_scale (P : Params K) (ops : List (Op K)) (c0 : CSys K) (h0 : Coherent c0) (v : M3 K) (o : V3 K)
+    (hdet : M3.det (zeroSmall P.tiny v) ≠ 0) :
+    let c := (runC P c0 ops).1
+    (stepC P (stepC P c (.boxSet true v o)).1 .spos).2 = (stepC P c .spos).2 := by
+  intro c
+  obtain ⟨_, _, hc⟩ := runC_erase P ops c0 h0
+  obtain ⟨e1, _, hc1⟩ := stepC_erase P c hc (.boxSet true v o)
+  obtain ⟨_, o2, _⟩ := stepC_erase P _ hc1 .spos
+  obtain ⟨_, o3, _⟩ := stepC_erase P c hc .spos
+  rw [o2, o3, e1]
+  simp only [step]
+  rw [(boxSet_scale_spec P.tiny c.erase v o).1 hdet]
+
 /-! ## non-vacuity: concrete states meeting the hypotheses -/
 
 /-- a rational square root good enough for the 3-4-5 example cell. -/
@@ -705,6 +738,8 @@ example : (runC exPar exSys exHist2).1.pos.length = 2 := by decide +kernel
 example : triple (runC exPar exSys exHist2).1.box.vects < 0 := by decide +kernel
 example : ((abcBox? exPar.sqrt (flip (runC exPar exSys exHist2).1.erase.box).vects).map
     (fun b2 => decide (zeroSmall exPar.tiny b2.vects = b2.vects))) = some true := by decide +kernel
+
+example : M3.det (zeroSmall exPar.tiny (⟨⟨0, 3, 0⟩, ⟨4, 0, 0⟩, ⟨0, 0, 5⟩⟩ : M3 ℚ)) ≠ 0 := by decide +kernel
 
 /-- at ℝ (real floor, real square root) every non-singular cell meets all hypotheses: normalize is
     defined and yields a right-handed LAMMPS cell. -/
